@@ -89,7 +89,9 @@ def check_actuator(chk, prog, sim):
                     problems.append("inner.set receives %r, not the terminal's combined data" % (arg,))
             failed = bool(set_err or upd_err)
             rok = isinstance(ret, Enum) and ret.vname == "Ok"
-            if failed == rok:
+            if isinstance(ret, Sym) and ".update()" in ret.name and names and names[-1] == "update":
+                pass   # inner.update()'s outcome returned as is: propagated by construction
+            elif failed == rok:
                 problems.append("returns %r although inner %s" % (ret, "failed" if failed else "succeeded"))
             if failed and isinstance(ret, Enum) and ret.vname == "Err" and not (".set()" in repr(ret.fields[0]) or ".update()" in repr(ret.fields[0])):
                 problems.append("returned error %r is not the inner object's error" % (ret.fields[0],))
